@@ -30,6 +30,11 @@ HARNESSED = {
     ("fontbe/src/os2.rs", "apply_metrics"): ["c19_os2_apply_metrics"],
     ("fontdrasil/src/types.rs", "try_from"): ["c19_width_class_total"],
     ("fontdrasil/src/coords.rs", "to_f2dot14"): ["c08_f2dot14_exact_on_grid"],
+    ("fontdrasil/src/coords.rs", "from"): ["c08_user_coord_to_fixed_in_range", "c08_f2dot14_exact_on_grid"],
+    ("fontir/src/ir.rs", "has_overflowing_2x2_transforms"): ["c19_2x2_overflow_guard"],
+    ("fontir/src/ir.rs", "add_phantom_points"): ["c04_phantom_points_horizontal", "c04_phantom_points_vertical"],
+    ("fontir/src/ir.rs", "height"): ["c04_phantom_points_vertical"],
+    ("fontir/src/ir.rs", "vertical_origin"): ["c04_phantom_points_vertical"],
 }
 
 _fn_re = re.compile(r"^\s*(?:pub(?:\([a-z:]+\))?\s+)?(?:const\s+)?(?:async\s+)?fn\s+([A-Za-z0-9_]+)")
